@@ -34,12 +34,20 @@ type LogSpec struct {
 
 // ErrSpec describes how scripted user code fails.
 // Kind: "rpc" (*RpcError{Type,Msg}), "plain" (errors.New), "wrapped_rpc"
-// (fmt.Errorf("%w") around an RpcError), "panic_str", "panic_err", "panic_int".
+// (fmt.Errorf("%w") around an RpcError), "custom" (a harness-defined error type),
+// "panic_str", "panic_err", "panic_int".
 type ErrSpec struct {
-	Kind string `json:"kind"`
-	Type string `json:"type,omitempty"`
-	Msg  string `json:"msg"`
+	Kind    string `json:"kind"`
+	Type    string `json:"type,omitempty"`
+	Msg     string `json:"msg"`
+	ErrKind string `json:"err_kind,omitempty"` // RpcError.Kind (wire vgi_rpc.error_kind), kinds "rpc" / "wrapped_rpc"
 }
+
+// harnessCustomErr is an error type of the harness's own (its Go type name
+// must never reach the wire).
+type harnessCustomErr struct{ msg string }
+
+func (e *harnessCustomErr) Error() string { return e.msg }
 
 // CallScript scripts one unary call or one stream-init call.
 type CallScript struct {
@@ -72,11 +80,13 @@ type StreamScript struct {
 func (e *ErrSpec) raise() error {
 	switch e.Kind {
 	case "rpc":
-		return &vgirpc.RpcError{Type: e.Type, Message: e.Msg}
+		return &vgirpc.RpcError{Type: e.Type, Message: e.Msg, Kind: e.ErrKind}
+	case "custom":
+		return &harnessCustomErr{msg: e.Msg}
 	case "plain":
 		return errors.New(e.Msg)
 	case "wrapped_rpc":
-		return fmt.Errorf("ctx: %w", &vgirpc.RpcError{Type: e.Type, Message: e.Msg})
+		return fmt.Errorf("ctx: %w", &vgirpc.RpcError{Type: e.Type, Message: e.Msg, Kind: e.ErrKind})
 	case "panic_str":
 		panic(e.Msg)
 	case "panic_err":
